@@ -7,8 +7,11 @@ import json
 import os
 import random
 
-from ..gcheck import GFamily, run_batches
+from ..gcheck import GFamily, run_batches, schedule_from_trace, linear_replay
 from .. import tracecheck
+from .. import l2
+from ..families import stream_l2 as sl
+from ..report import MachineryError
 from ..families import stream as fam
 from ..families import streamroute as rfam
 from ..report import ROOT, load_findings
@@ -176,6 +179,9 @@ def run_tmode(report, prop, tier, seed):
     fails, st = tracecheck.validate(FAMILY.trace_module, traces, TCLAUSES[prop])
     report.add(traces_validated_against_impl=len(traces), trace_states=st["states"])
     report.sample({"tmode_trace_head": {"dut": FAMILY.describe(meta[0][0]), "first_cycles": traces[0]["ev"][:6]}})
+    keep = {}
+    for (spec, _, _), tr in zip(meta, traces):
+        keep.setdefault(json.dumps(spec, sort_keys=True), (spec, tr["ev"]))
     for f in fails:
         spec, pv, pr = meta[f["tid"]]
         tr = traces[f["tid"]]
@@ -186,6 +192,7 @@ def run_tmode(report, prop, tier, seed):
                           "trace_invariants": TCLAUSES[prop], "observed": tr["ev"][:f["l"]], "clause": f["clause"]},
                          "%s violated by %s in a recorded simulation trace at cycle %s" % (
                              f["clause"], FAMILY.describe(spec), f["l"]))
+    return list(keep.values())
 
 
 def route_trace(spec, cfg, ncycles, rnd, pvalid, pready, psel):
@@ -247,16 +254,88 @@ def run_route_tmode(report, prop, tier, seed):
                              f["clause"], ROUTE_FAMILY.describe(spec), f["l"]))
 
 
+# ----------------------------------------------------------------------------- L2 lane (DESIGN.md section 9)
+def _l2_on_accept(state):
+    def cb(gl):
+        duts = l2.graph_cases(gl, sl.LANE)
+        n, dr = l2.conformance(sl.LANE, duts)
+        state["graph_cases"] += n
+        state["graph_duts"] += len(duts)
+        state["drifts"] += dr
+    return cb
+
+
+def run_l2(prop, report, tier, seed, state, tm_traces):
+    """(a) graph conformance happened in the G-mode batches (state); (b) the model against every cycle of the
+    realistic-width runs recorded for T-mode; (c) M-mode: model x Env x the clauses of this property at parameters
+    beyond G-mode; (d) a drifting DUT is explored against the L1 contract at the thorough tier's parameters."""
+    invs, props = CLAUSES[prop]
+    # (b)
+    duts = []
+    for spec, ev in tm_traces:
+        m = sl.model_cfg(spec)
+        if m is None or m["lcm"] > 30 or m["dw"] + m["pw"] + 2 > 30:
+            continue
+        reset, cases = l2.run_cases(FAMILY.factory_path, spec, sl.LANE.proj_path, [e[0] for e in ev])
+        duts.append({"spec": spec, "m": m, "reset": reset, "cases": cases})
+    n, dr = l2.conformance(sl.LANE, duts)
+    state["drifts"] += dr
+    report.add(l2_model={"module": "stream/StreamModel", "graph_duts_conformant": state["graph_duts"],
+                         "graph_edges_judged": state["graph_cases"], "run_duts": len(duts), "run_cycles_judged": n})
+    # (c)
+    mcfgs = sl.mmode_configs(tier)
+    res = l2.mmode(sl.LANE.m_module, [{"c": x["c"], "m": x["m"]} for x in mcfgs], invs, props,
+                   timeout=1500 if tier == "quick" else 5400)
+    report.add(states=res.distinct, transitions=res.generated)
+    report.cov["l2_model"].update({"mmode_configs": len(mcfgs), "mmode_states": res.distinct, "mmode_wall_s": round(res.wall, 1),
+                                   "mmode_largest": "SyncFIFO depth %d, converter ratio %d" % (
+                                       max(x["m"]["depth"] for x in mcfgs), max(x["m"]["ratio"] for x in mcfgs))})
+    if res.violated:
+        # a counterexample on the model: it counts only if the real netlist shows it too
+        d = res.trace[0]["vars"]["d"]
+        x = mcfgs[d - 1]
+        prefix, loop = schedule_from_trace(res)
+        clause = res.temporal_name if res.violated == "temporal" else res.violated
+        sched = list(prefix) + (list(loop) * 40 if loop else [])
+        ev = linear_replay(FAMILY.factory_path, x["spec"], sched, shim=FAMILY.shim)
+        tcfg = dict(x["c"], stallbound=max(1, len(loop) * 40) if loop else 10 ** 6)
+        tinv = [FAMILY.clause_map[clause]] if clause in FAMILY.clause_map else TCLAUSES[prop]
+        fails, _ = tracecheck.validate(FAMILY.trace_module, [{"cfg": tcfg, "ev": ev}], tinv)
+        if fails:
+            report.violation({"dut": x["spec"], "clause": fails[0]["clause"], "gclause": clause},
+                             {"family": FAMILY.graph_module, "factory": FAMILY.factory_path, "spec": x["spec"], "cfg": tcfg,
+                              "schedule": [list(i) for i in sched[:2000]], "trace_module": FAMILY.trace_module,
+                              "trace_invariants": tinv, "observed": ev[:2000], "clause": fails[0]["clause"]},
+                             "%s violated by %s (found on the L2 model in M-mode, reproduced on the netlist) after %d cycles" % (
+                                 fails[0]["clause"], FAMILY.describe(x["spec"]), len(prefix)))
+        else:
+            report.note("MODEL-DRIFT stream: M-mode counterexample to %s on the model of %s does not reproduce on the netlist" % (
+                clause, FAMILY.describe(x["spec"])))
+            report.add(l2_model_drifts=1)
+    # (d)
+    l2.report_drifts(report, sl.LANE, state["drifts"])
+    if state["drifts"] and tier == "quick" and not report.violations:
+        # nothing has been reported yet although the code is no longer what was model-checked: look deeper
+        classes = {d["spec"]["cls"] for d in state["drifts"]}
+        have = {json.dumps(s_, sort_keys=True) for s_, _ in fam.configs("quick")}
+        esc = [(s_, c_) for s_, c_ in fam.configs("thorough")
+               if s_["cls"] in classes and json.dumps(s_, sort_keys=True) not in have]
+        report.note("escalation: %d thorough-tier configuration(s) of %s explored against the L1 contract" % (len(esc), sorted(classes)))
+        if esc:
+            run_batches(FAMILY, report, _batches(esc[:8], 4), invs, props, spec_budget=300000, total_budget=1200000)
+
+
 def run(prop, report, tier, seed):
     _notes_findings(report)
     invs, props = CLAUSES[prop]
     cfgs = fam.configs(tier)
+    l2state = {"graph_cases": 0, "graph_duts": 0, "drifts": []}
     report.assume("producer keeps valid and token steady until accepted (stream protocol); exhaustive G-mode at "
                   "reduced widths (1-4 bit payload alphabets), realistic widths only sampled in T-mode")
     report.assume("FHDL netlist semantics = litex/gen/sim/core.py (compiled stepper cross-checked against it)")
     stats = run_batches(FAMILY, report, _batches(cfgs, 14 if tier == "quick" else 4), invs, props,
                         spec_budget=80000 if tier == "quick" else 600000,
-                        total_budget=900000 if tier == "quick" else 3000000)
+                        total_budget=900000 if tier == "quick" else 3000000, on_accept=_l2_on_accept(l2state))
     report.add(duts_explored=len(stats), clauses=invs + props, per_dut=stats)
     # routing elements: selector inputs that may change in any cycle (own contract module)
     report.assume("routing elements: the selector is an environment input that may change in any cycle; a source's "
@@ -266,8 +345,13 @@ def run(prop, report, tier, seed):
     rstats = run_batches(ROUTE_FAMILY, report, _batches(rfam.configs(tier), 8), rinvs, rprops,
                          spec_budget=400000, total_budget=2000000)
     report.add(duts_explored=len(rstats), clauses=rinvs + rprops, per_dut=rstats)
-    run_tmode(report, prop, tier, seed)
+    tm = run_tmode(report, prop, tier, seed)
     run_route_tmode(report, prop, tier, seed)
+    report.assume("L2 (specs/stream/StreamModel.tla): register-level models of PipeValid, PipeReady, SyncFIFO, the width "
+                  "converters and Gearbox; they give no verdict - every edge of the complete G-mode graphs and every cycle of "
+                  "the realistic-width runs must be reproduced by the model (else MODEL-DRIFT and escalation), and the model is "
+                  "checked against the same clauses in M-mode at larger parameters")
+    run_l2(prop, report, tier, seed, l2state, tm)
     if prop == "C04":
         from . import packetfam
         packetfam.run_handshake(prop, report, tier, seed)
